@@ -134,15 +134,32 @@ async fn auth(a: &Value) -> Value {
         c2.fetch_add(1, std::sync::atomic::Ordering::SeqCst);
         async move { Ok::<Response<Bytes>, std::convert::Infallible>(Response::new(r.into_body())) }
     });
-    let mut svc = tower::ServiceBuilder::new().layer(RequireAuthorizationLayer::new(AllowedPeers::new(allowed))).service(inner);
     let mut req = Request::new(Bytes::from_static(b"payload"));
     if let Some(s) = a.get("sender") {
         if !s.is_null() {
             req.extensions_mut().insert(peer(s));
         }
     }
-    let resp = svc.ready().await.unwrap().call(req).await.unwrap();
-    json!({"status": resp.status().to_u16(), "inner_calls": calls.load(std::sync::atomic::Ordering::SeqCst), "body": resp.body().to_vec()})
+    match a.get("direction").and_then(|x| x.as_str()) {
+        Some("inbound") => { req.extensions_mut().insert(anemo::Direction::Inbound); }
+        Some("outbound") => { req.extensions_mut().insert(anemo::Direction::Outbound); }
+        _ => {}
+    }
+    // `custom`: an authorizer of the application's own whose verdict depends on the request body and whose refusal is a full response
+    let resp = if a.get("custom").and_then(|x| x.as_bool()).unwrap_or(false) {
+        let authorizer = |r: &mut Request<Bytes>| -> Result<(), Response<Bytes>> {
+            if r.body().as_ref() == b"payload-ok" { Ok(()) } else {
+                Err(Response::new(Bytes::from_static(b"refused because ...")).with_status(StatusCode::TooManyRequests).with_header("retry-after", "30").with_header("x-refused-by", "custom"))
+            }
+        };
+        if a.get("accept").and_then(|x| x.as_bool()).unwrap_or(false) { *req.body_mut() = Bytes::from_static(b"payload-ok"); }
+        let mut svc = tower::ServiceBuilder::new().layer(RequireAuthorizationLayer::new(authorizer)).service(inner);
+        svc.ready().await.unwrap().call(req).await.unwrap()
+    } else {
+        let mut svc = tower::ServiceBuilder::new().layer(RequireAuthorizationLayer::new(AllowedPeers::new(allowed))).service(inner);
+        svc.ready().await.unwrap().call(req).await.unwrap()
+    };
+    json!({"status": resp.status().to_u16(), "inner_calls": calls.load(std::sync::atomic::Ordering::SeqCst), "body": resp.body().to_vec(), "headers": hm(resp.headers())})
 }
 
 fn echo() -> tower::util::BoxCloneService<Request<Bytes>, Response<Bytes>, std::convert::Infallible> {
